@@ -12,6 +12,9 @@
      element in order; empty list = one clearing entry) and that names no other option;
      acknowledged -> the store takes the entries, nothing is pending; rejected -> nothing changes;
      CONF_CHANGED replaces the store's values of the options it names;
+     Copy (config.A = config.B for two list options, B without a pending change) is the assignment
+     to A of the list a read of B returns; A and B stay independent options: later edits of one are
+     changes of that one only;
      a read of an option with nothing pending returns the store's value parsed by the declared type.
 
    spec_next is the state transformer (it never looks at observations); spec_check judges the
@@ -127,6 +130,12 @@ Section WithTable.
     | OpSave (Some _) => st
     | OpEvent items =>
         {| s_store := apply_entries opts (s_store st) (event_entries items); s_pend := s_pend st |}
+    | OpCopy dst src =>
+        match dfind_ci dst opts, dfind_ci src opts with
+        | Some (cd, kd), Some (cs, ks) =>
+            {| s_store := s_store st; s_pend := dset cd (IList (cur_list st cs ks)) (s_pend st) |}
+        | _, _ => st
+        end
     | OpRead _ | OpNeedsSave | OpSocks => st
     end.
 
@@ -250,6 +259,8 @@ Section WithTable.
         | XEvent ns snap => Bool.eqb ns (negb (is_nil (s_pend st))) && snap_ok st' opts snap
         | _ => false
         end
+    | OpCopy dst src =>
+        is_nil (o_wrote ob) && match o_res ob with XOk => true | _ => false end
     | OpSocks =>
         is_nil (o_wrote ob) &&
         match dfind_ci SocksPort_name opts with
@@ -469,7 +480,17 @@ Definition event_item_ok (opts : list (bytes * kind)) (items : list (bytes * opt
       | Some v => tor_value_ok v
       | None => is_nil (values_of_key (fst it) items)     (* an option is announced as unset OR with values *)
       end
-      && tor_values_ok k (values_of_key (fst it) items)
+      (* an option reset to its default is announced by its keyword alone, whatever its type *)
+      && (is_nil (values_of_key (fst it) items) || tor_values_ok k (values_of_key (fst it) items))
+  end.
+
+(* a list read from an option of kind ks can be assigned to an option of kind kd: the elements of a
+   comma list contain no comma; lines are arbitrary texts *)
+Definition copy_ok (kd ks : kind) : bool :=
+  match kd with
+  | KComma => match ks with KComma => true | _ => false end
+  | KLine | KPorts => is_list_kind ks
+  | _ => false
   end.
 
 Definition op_ok (opts : list (bytes * kind)) (o : op) : bool :=
@@ -483,6 +504,11 @@ Definition op_ok (opts : list (bytes * kind)) (o : op) : bool :=
   | OpSave None | OpNeedsSave => true
   | OpEvent items => negb (is_nil items) && forallb (event_item_ok opts items) items
   | OpSocks => match dfind_ci SocksPort_name opts with Some (_, k) => is_list_kind k | None => false end
+  | OpCopy dst src =>
+      match dfind_ci dst opts, dfind_ci src opts with
+      | Some (_, kd), Some (_, ks) => copy_ok kd ks
+      | _, _ => false
+      end
   end.
 
 Definition in_scope (i : cfg_input) : bool :=
